@@ -100,31 +100,7 @@ def same(a, b):
                                              and not isinstance(a, bool) and not isinstance(b, bool) and a == b)
 
 
-class Collector(object):
-    def __init__(self, h):
-        self.h = h
-        self.calls = []
-        self.dir = None
-
-    def __enter__(self):
-        if self.h.symbolic:
-            S._verif_sink = lambda kind, payload: self.calls.append((kind, payload))
-        else:
-            self.dir = tempfile.mkdtemp(prefix='emd-verif-trace-')
-            os.environ['AJQUINN_EMD_MIRROR_VERIF_TRACE'] = self.dir
-        return self
-
-    def __exit__(self, *a):
-        if self.h.symbolic:
-            S._verif_sink = None
-        else:
-            os.environ.pop('AJQUINN_EMD_MIRROR_VERIF_TRACE', None)
-            for f in sorted(glob.glob(os.path.join(self.dir, '*.jsonl'))):
-                for line in open(f):
-                    rec = json.loads(line)
-                    self.calls.append((rec.pop('kind'), rec))
-            shutil.rmtree(self.dir, ignore_errors=True)
-        return False
+Collector = common.Collector
 
 
 def call(h, variant, route, X, imf, env, ext, p):
